@@ -67,6 +67,8 @@ def Env.h2f (e : Env) (b : List UInt8) : Nat :=
 structure St where
   env : Env
   inst : Option TreeDriver.TInst := none
+  /-- root of the current instance, computed once per tree state (the ideal tree recomputes it from the leaves) -/
+  rootCache : Option Nat := none
 
 def showOutcome (o : Outcome String) : String :=
   match o with
@@ -112,19 +114,21 @@ def treeStep (st : St) (w : List String) : St × String :=
   match st.inst with
   | some inst =>
     let (inst', r) := TreeDriver.stepT { H := st.env.H2, spec := st.env.mode == .spec } inst w
-    ({ st with inst := some inst' }, r)
+    let observer := w.head? == some "root" || w.head? == some "get" || w.head? == some "next" || w.head? == some "sub" ||
+      w.head? == some "proof" || w.head? == some "pverify" || w.head? == some "obs" || w.head? == some "empty"
+    ({ st with inst := some inst', rootCache := if observer then st.rootCache else none }, r)
   | none => (st, "bad-op")
 
 /-- current RLN tree as (root, proof function, leaves_set, empty list) -/
-def rlnView (st : St) : Option (Nat × (Nat → Outcome (List (Nat × Nat))) × Nat × List Nat) :=
+def rlnView (st : St) : Option ((Unit → Nat) × (Nat → Outcome (List (Nat × Nat))) × Nat × List Nat) :=
   match st.inst with
   | some ti =>
     let H := st.env.H2
     match ti.inst with
-    | .pm t => some (t.root, fun i => t.proof i, t.next, t.emptyIdx)
-    | .full t => some (t.root, fun i => t.proof i, t.next, t.emptyIdx)
-    | .opt t => some (t.root, fun i => t.proof i, t.next, t.emptyIdx)
-    | .ideal t _ => some (t.nodeFast H 0 0 0,
+    | .pm t => some (fun _ => t.root, fun i => t.proof i, t.next, t.emptyIdx)
+    | .full t => some (fun _ => t.root, fun i => t.proof i, t.next, t.emptyIdx)
+    | .opt t => some (fun _ => t.root, fun i => t.proof i, t.next, t.emptyIdx)
+    | .ideal t _ => some (fun _ => t.nodeFast H 0 0 0,
         fun i => if i < t.cap then .ok (t.proofFast H 0 i) else .err, t.next, t.emptyIdx)
   | none => none
 
@@ -141,7 +145,7 @@ def rlnStep (st : St) (w : List String) : St × String :=
   match w with
   | ["new"] =>
     match TreeDriver.newInst { H := st.env.H2, spec := spec } "pm" 20 with
-    | some inst => ({ st with inst := some { inst := inst } }, "ok")
+    | some inst => ({ st with inst := some { inst := inst }, rootCache := none }, "ok")
     | none => (st, "bad-op")
   | ["set_leaf", i, v] => fwd ["set", i, v]
   | ["set_next", v] => fwd ["app", v]
@@ -152,7 +156,7 @@ def rlnStep (st : St) (w : List String) : St × String :=
   | ["set_leaves_from", i, vs] => fwd ["batch", i, vs, "-"]
   | ["init_leaves", vs] =>
     match TreeDriver.newInst { H := st.env.H2, spec := spec } "pm" 20 with
-    | some inst => treeStep { st with inst := some { inst := inst } } ["batch", "0x0", vs, "-"]
+    | some inst => treeStep { st with inst := some { inst := inst }, rootCache := none } ["batch", "0x0", vs, "-"]
     | none => (st, "bad-op")
   | ["atomic", i, vs, idx] => fwd ["batch", i, vs, idx]
   | ["empty"] => match rlnView st with
@@ -166,7 +170,7 @@ def rlnStep (st : St) (w : List String) : St × String :=
     | _, _ => (st, "bad-op")
   | [op, b] =>
     match parseHexBytes b, rlnView st with
-    | some bs, some (root, pf, _, _) =>
+    | some bs, some (_, pf, _, _) =>
       let Z := unitSnark true true
       let Pv : Prover Unit := { prove := fun _ => some () }
       if op == "prove_req" then
@@ -219,7 +223,9 @@ def rlnStep (st : St) (w : List String) : St × String :=
     | none => (st, "bad-op")
   | ["verify_rln", b, dec, snark] =>
     match parseHexBytes b, rlnView st with
-    | some bs, some (root, _, _, _) =>
+    | some bs, some (root0, _, _, _) =>
+      let root := match st.rootCache with | some r => r | none => root0 ()
+      let st := { st with rootCache := some root }
       if spec then (st, if Spec.acceptRln pe.h2f (some root) none bs (bool01 dec) (bool01 snark) then "accept" else "reject")
       else (st, verdict (verifyRlnProof (unitSnark (bool01 dec) (bool01 snark)) pe.h2f root bs))
     | _, _ => (st, "bad-op")
@@ -322,7 +328,7 @@ def step (st : St) (line : String) : St × String :=
     match depth.toNat? with
     | some d =>
       match TreeDriver.newInst { H := e.H2, spec := e.mode == .spec } backend d with
-      | some inst => ({ st with inst := some { inst := inst } }, "ok")
+      | some inst => ({ st with inst := some { inst := inst }, rootCache := none }, "ok")
       | none => (st, "bad-op")
     | none => (st, "bad-op")
   | w => match ProtoDriver.stepPure (protoEnv e) w with
